@@ -1,29 +1,13 @@
 #!/usr/bin/env python3
 """run checks against a behaviour-preserving refactor held as a diff (applied to an in-memory copy of the sources).
 usage: tools_neutral.py <diff> [props...]   -- prints every VIOLATION / UNKNOWN; a clean refactor must be silent"""
-import os, shutil, subprocess, sys, tempfile
+import os, sys
 sys.path.insert(0, os.path.dirname(os.path.abspath(__file__)))
 from ocv.__main__ import analyse
 from ocv.core import VIOLATION, UNKNOWN
 
 
-def patched_sources(diff, root="/repo"):
-    tmp = tempfile.mkdtemp(prefix="ocv_neutral_")
-    try:
-        shutil.copytree(os.path.join(root, "opticomlib"), os.path.join(tmp, "opticomlib"))
-        r = subprocess.run(["patch", "-p1", "-s", "-d", tmp, "-i", os.path.abspath(diff)], capture_output=True, text=True)
-        if r.returncode != 0:
-            return None
-        out = {}
-        for fn in os.listdir(os.path.join(tmp, "opticomlib")):
-            if fn.endswith(".py"):
-                a = open(os.path.join(tmp, "opticomlib", fn), encoding="utf-8").read()
-                b = open(os.path.join(root, "opticomlib", fn), encoding="utf-8").read()
-                if a != b:
-                    out[fn[:-3]] = a
-        return out
-    finally:
-        shutil.rmtree(tmp, ignore_errors=True)
+from ocv.patching import patched_sources  # noqa: E402  (pure-Python unified-diff application to in-memory sources)
 
 
 if __name__ == "__main__":
